@@ -43,19 +43,29 @@ func verifArbitraryMinters(n int) []*types.Minter {
 	return ms
 }
 
-func Verif_C13_minter_updates() {
-	n := verif_choice("n", 2) + 1
-	kinds := verifKinds(n, verif_choice("kinds", verifKindCount(n)))
-	s := verifSchedule(n, kinds) // stored parameters: arbitrary but valid
+// stored parameters: one of two representative valid two-period schedules (linear+no-minting, exponential+exponential)
+func verifC13Stored() (verifSched, int) {
+	kinds := []int{kLin, kNo}
+	if verif_choice("storedShape", 2) == 1 {
+		kinds = []int{kExp, kExp}
+	}
+	return verifSchedule(2, kinds), 2
+}
+
+func verifC13Install() (Keeper, sdk.Context, types.Params) {
+	s, n := verifC13Stored()
 	k := verifMinterKeeper()
 	cur := verif_choice("cur", n)
 	st := types.MinterState{SequenceId: uint32(cur + 1), AmountMinted: verif_int_range("minted", "0", "1e40"), RemainderToMint: sdk.ZeroDec(),
 		RemainderFromPreviousMinter: sdk.ZeroDec(), LastMintBlockTime: s.params.StartTime}
 	ctx := verifInstall(k, s, st, verif_time_range("now", vT0, vT1))
-	before := k.GetParams(ctx)
-	snapshot := verif_deep_copy(before)
+	return k, ctx, k.GetParams(ctx)
+}
 
-	authority := verif_str_in("authority", "gov", "c4e:someone", "")
+// Any payload, sent by the governance authority: either rejected with the store untouched, or the stored result is valid.
+func Verif_C13_minter_updates() {
+	k, ctx, before := verifC13Install()
+	snapshot := verif_deep_copy(before)
 	newMinters := verifArbitraryMinters(verif_choice("newN", 2) + 1)
 	newStart := verif_time_unit("newStart", 1000000, vT0, vT1)
 	ms := NewMsgServerImpl(k)
@@ -63,25 +73,46 @@ func Verif_C13_minter_updates() {
 	full := verif_choice("fullUpdate", 2) == 1
 	panicked := verif_catch(func() {
 		if full {
-			_, err = ms.UpdateParams(sdk.WrapSDKContext(ctx), &types.MsgUpdateParams{Authority: authority, MintDenom: verif_str_in("newDenom", "uc4e", "", "unew"), StartTime: newStart, Minters: newMinters})
+			_, err = ms.UpdateParams(sdk.WrapSDKContext(ctx), &types.MsgUpdateParams{Authority: "gov", MintDenom: verif_str_in("newDenom", "uc4e", "", "unew"), StartTime: newStart, Minters: newMinters})
 		} else {
-			_, err = ms.UpdateMintersParams(sdk.WrapSDKContext(ctx), &types.MsgUpdateMintersParams{Authority: authority, StartTime: newStart, Minters: newMinters})
+			_, err = ms.UpdateMintersParams(sdk.WrapSDKContext(ctx), &types.MsgUpdateMintersParams{Authority: "gov", StartTime: newStart, Minters: newMinters})
 		}
 	})
 	after := k.GetParams(ctx)
-	if authority != "gov" {
-		verif_assert(panicked || err != nil, "a signer other than the governance authority is rejected")
-	}
 	if panicked || err != nil {
 		verif_assert(verif_deep_equal(snapshot, after), "a rejected update leaves the stored parameters intact")
 		verif_reach("update rejected")
 		return
 	}
-	verif_assert(authority == "gov", "only the governance authority can change parameters")
 	verif_assert(after.Validate() == nil, "stored parameters satisfy the module's validation rules")
 	verif_assert(after.ContainsMinter(k.GetMinterState(ctx).SequenceId), "the minter's current period exists in the stored configuration")
 	if !full {
 		verif_assert(after.MintDenom == before.MintDenom, "a partial update does not touch the mint denom")
 	}
 	verif_reach("update applied")
+}
+
+// A valid payload from any signer: only the governance authority gets it applied.
+func Verif_C13_minter_authority() {
+	k, ctx, before := verifC13Install()
+	snapshot := verif_deep_copy(before)
+	authority := verif_str_in("authority", "gov", "c4e:someone", "", "Gov")
+	ms := NewMsgServerImpl(k)
+	newStart := verif_time_unit("newStart", 1000000, vT0, vT1)
+	verif_assume(newStart.Before(*before.Minters[0].EndTime))
+	var err error
+	if verif_choice("fullUpdate", 2) == 1 {
+		_, err = ms.UpdateParams(sdk.WrapSDKContext(ctx), &types.MsgUpdateParams{Authority: authority, MintDenom: "unew", StartTime: newStart, Minters: before.Minters})
+	} else {
+		_, err = ms.UpdateMintersParams(sdk.WrapSDKContext(ctx), &types.MsgUpdateMintersParams{Authority: authority, StartTime: newStart, Minters: before.Minters})
+	}
+	after := k.GetParams(ctx)
+	if authority != "gov" {
+		verif_assert(err != nil, "a signer other than the governance authority is rejected")
+		verif_assert(verif_deep_equal(snapshot, after), "a rejected update leaves the stored parameters intact")
+		verif_reach("foreign signer rejected")
+		return
+	}
+	verif_assert(err == nil && after.StartTime.Equal(newStart), "the governance authority's valid update is applied")
+	verif_reach("authority update applied")
 }
